@@ -615,3 +615,32 @@ func DrawS(n int) (int, bool) {
 	}
 	return s.tape.S.Draw(n), true
 }
+
+// Go0..Go3 replace `go f(args...)`: the function value and the arguments are
+// evaluated by the caller, at the go statement, as Go requires.
+func Go0(site string, f func()) { Go(site, f) }
+
+func Go1[A any](site string, f func(A), a A) { Go(site, func() { f(a) }) }
+
+func Go2[A, B any](site string, f func(A, B), a A, b B) { Go(site, func() { f(a, b) }) }
+
+func Go3[A, B, C any](site string, f func(A, B, C), a A, b B, c C) {
+	Go(site, func() { f(a, b, c) })
+}
+
+// NumCPUOr replaces runtime.NumCPU(): a knob under simulation (and when a
+// static knob is set), the real value otherwise.
+//
+//go:norace
+func NumCPUOr(real func() int) int {
+	if s := theSim; s != nil {
+		if v, ok := s.knobs["NumCPU"]; ok {
+			return v
+		}
+		return 2
+	}
+	if v, ok := staticKnobs["NumCPU"]; ok {
+		return v
+	}
+	return real()
+}
